@@ -16,8 +16,8 @@ to_tensor() and runs one battery:
          the step vs the dense gates applied to the dense state (up to normalisation); reported truncation errors
 
 In bmps / ctm, measure_2site is also called on explicit (xrange, yrange) sub-windows (always one with >= 3 boundary steps
-and an open edge inside the lattice when the lattice allows it) and with explicit pair lists (even operators judged,
-odd ones only recorded); measure_nn also in its dict / bond-list / per-site-dict forms with reversed or shuffled bond
+and an open edge inside the lattice when the lattice allows it) and with explicit pair lists (odd operators with an unlisted site on the string's
+path: one specific key); measure_nn also in its dict / bond-list / per-site-dict forms with reversed or shuffled bond
 order and a different operator pair per bond.  Everything is compared
 
 against  <psi| O1_{s1} O2_{s2} ... |psi> / <psi|psi>  with explicit Jordan-Wigner strings (vmon.pepsref).
@@ -72,7 +72,8 @@ def floors(tier):
          "odd_operator_values": 300 * k, "reversed_order_values": 100 * k, "restriction_raises_counted": 20 * k,
          "metrics_checked": 300 * k, "fermionic_states": 40 * k, "measure_2site_subwindows": 20 * k,
          "measure_2site_subwindows_open_edge_3steps": 4 * k, "measure_nn_dict_order:reversed": 3 * k,
-         "measure_nn_dict_order:shuffled": 8 * k}
+         "measure_nn_dict_order:shuffled": 8 * k,
+         "pairs_list:odd:unlisted-site-on-path": 3 * k, "pairs_list:odd:path-listed": 10 * k, "pairs_list:even:path-listed": 20 * k}
     for fn in ("measure_1site", "measure_nn", "measure_2site", "measure_nsite"):
         f["fn:EnvBoundaryMPS." + fn] = 15 * k
     for fn in ("measure_1site", "measure_nn", "measure_2site", "measure_2x2", "measure_line", "measure_nsite",
@@ -262,7 +263,7 @@ class Battery:
             order = "mixed"
         return odd, order
 
-    def judge(self, fn, names, sites, got, key_extra="", tol_scale=1.0):
+    def judge(self, fn, names, sites, got, key_extra="", tol_scale=1.0, key=None):
         ctx = self.ctx
         exp = self.dense(names, sites)
         scale = max(1.0, float(np.prod([self.nrm[n] for n in names])))
@@ -284,9 +285,9 @@ class Battery:
             ctx.violation(f"result-type:{self.envname}.{fn}", f"{fn} returned {type(got).__name__}")
             return False
         err = abs(got - exp)
-        ok = ctx.margin(f"{self.envname}.{fn}", err, VAL_TOL * scale * tol_scale * self.amp)
+        ok = ctx.margin(f"{self.envname}.{fn}" if key is None else key, err, VAL_TOL * scale * tol_scale * self.amp)
         if not ok:
-            key = f"value:{self.envname}.{fn}{key_extra}:" + ("odd" if odd else "even") + ":" + order
+            key = key or (f"value:{self.envname}.{fn}{key_extra}:" + ("odd" if odd else "even") + ":" + order)
             ctx.violation(key, f"{self.envname}.{fn}({', '.join(names)}) at {list(sites)} = {got} but dense <psi|O|psi>/<psi|psi> = {exp} "
                                f"(|diff| {err:.3e}) on {self.desc['lattice']} {self.F.cls},{self.F.sym}",
                           dict(self.desc, function=fn, operators=list(names), sites=[list(s) for s in sites], got=got, expected=exp))
@@ -397,7 +398,7 @@ def battery_bmps(ctx, idx, rng, nprng, lattices):
     windows_2site(ctx, B, env, "EnvBoundaryMPS", rng, pairs, opts, Nx, Ny, [d for d, ok in (("v", has_lr), ("h", has_tb)) if ok])
     for dirn, ok in (("v", has_lr), ("h", has_tb)):
         if ok:
-            probe_pairs_list(ctx, B, env, rng, pairs, opts, dirn)
+            pairs_list_2site(ctx, B, env, rng, pairs, opts, dirn, Nx, Ny)
     # single-direction set-ups: the only windows that need no other boundary
     single = {"r": ("v", None, (0, 1)), "l": ("v", None, (Ny - 1, Ny)), "b": ("h", (0, 1), None), "t": ("h", (Nx - 1, Nx), None)}
     for ch, (dirn, xr, yr) in single.items():
@@ -483,27 +484,55 @@ def windows_2site(ctx, B, env, envname, rng, pairs, opts, Nx, Ny, dirns):
                     B.judge("measure_2site", [a, b], [tuple(s0), tuple(s1)], v, ":" + dirn + ":subwindow")
 
 
-def probe_pairs_list(ctx, B, env, rng, pairs, opts, dirn):
-    """measure_2site with an explicit LIST of pairs.  Even operators: judged (the docstring offers a list).  Parity-odd
-    operators: at HEAD the string swaps on sites between O0 and O1 are only added for listed pairs, so a lone distant
-    pair comes out wrong; this is reported (counted), not judged."""
+PAIRS_LIST_KEY = "value:measure_2site:pairs-list:odd:string-skipped-on-unlisted-site"
+
+
+def string_path(s0, s1, dirn, xr, yr):
+    """sites on which the workers (_measure_2site_rows / _columns) place the fermionic string of O0 when O1 sits at s1:
+    the rest of the row (column) of O0 up to O1 or to the window's edge, and -- if O1 is in a later row (column) -- the
+    part of O1's row (column) beyond O1; intermediate rows (columns) are crossed at the window's edge only."""
+    if dirn == "h":
+        (x0, y0), (x1, y1) = s0, s1
+        if x1 == x0:
+            return [(x0, y) for y in range(y0 + 1, y1)]
+        return [(x0, y) for y in range(y0 + 1, yr[1])] + [(x1, y) for y in range(y1 + 1, yr[1])]
+    (x0, y0), (x1, y1) = s0, s1
+    if y1 == y0:
+        return [(x, y0) for x in range(x0 + 1, x1)]
+    return [(x, y0) for x in range(x0 + 1, xr[1])] + [(x, y1) for x in range(x1 + 1, xr[1])]
+
+
+def pairs_list_2site(ctx, B, env, rng, pairs, opts, dirn, Nx, Ny):
+    """measure_2site with an explicit LIST of pairs (offered by the docstring).
+
+    The workers add the string swaps of O0 on a site only inside `if ((nx0, ny0), (nx1, ny1)) in pairs:`, so with parity-odd
+    operators a listed pair is evaluated with a piece of the string missing whenever a site on the string's path is not
+    itself listed as a partner of O0.  Exactly that mechanism (odd operators, explicit list, unlisted site on the path)
+    is judged under ONE key, PAIRS_LIST_KEY; even operators and lists that contain the whole path keep the normal keys."""
     o = B.F.cat
+    xr, yr = (0, Nx), (0, Ny)
     so = (lambda s: s) if dirn == "h" else (lambda s: s[::-1])
     cand = [(s0, s1) for s0 in B.sites for s1 in B.sites if so(s0) < so(s1)]
     if not cand:
         return
     lst = rng.sample(cand, min(len(cand), rng.randint(1, 2)))
-    for (a, b), judged in ((pairs[-1], True), (pairs[0], False)):
-        odd = B.klass([a, b], lst[0])[0]
-        if odd == judged:
-            continue
+    far = [p for p in cand if string_path(p[0], p[1], dirn, xr, yr)]
+    if far and rng.random() < 0.5:               # a lone pair whose string passes other sites
+        lst = [rng.choice(far)]
+    elif rng.random() < 0.6:                     # complete the list: every site on the string's path is listed with O0
+        lst = lst[:1]
+        lst += [(lst[0][0], s) for s in string_path(lst[0][0], lst[0][1], dirn, xr, yr)]
+    listed = set(lst)
+    for a, b in (pairs[-1], pairs[0]):
         out = env.measure_2site(o[a], o[b], pairs=list(lst), dirn=dirn, opts_svd=dict(opts))
+        if {(tuple(p), tuple(q)) for p, q in out} != listed:
+            ctx.violation(f"keys:{B.envname}.measure_2site", f"measure_2site(pairs=<list of {len(listed)}>) returned {len(out)} entries")
+        odd = B.klass([a, b], lst[0])[0]
         for (s0, s1), v in out.items():
-            if judged:
-                B.judge("measure_2site", [a, b], [tuple(s0), tuple(s1)], v, ":" + dirn + ":pairs-list")
-            else:
-                bad = abs(complex(v) - B.dense([a, b], [tuple(s0), tuple(s1)])) > B.tol([a, b])
-                ctx.count("probe:measure_2site_pairs_list_odd:" + ("mismatch" if bad else "agree"))
+            s0, s1 = tuple(s0), tuple(s1)
+            skipped = odd and any((s0, s) not in listed for s in string_path(s0, s1, dirn, xr, yr))
+            ctx.count("pairs_list:" + ("odd" if odd else "even") + (":unlisted-site-on-path" if skipped else ":path-listed"))
+            B.judge("measure_2site", [a, b], [s0, s1], v, ":" + dirn + ":pairs-list", key=PAIRS_LIST_KEY if skipped else None)
 
 
 def bond_order(rng, bonds):
@@ -619,7 +648,7 @@ def battery_ctm(ctx, idx, rng, nprng, lattices):
                 B.judge("measure_2site", [a, b], [tuple(s0), tuple(s1)], v, ":" + dirn)
     windows_2site(ctx, B, env, "EnvCTM", rng, pairs, opts, Nx, Ny, "vh")
     for dirn in "vh":
-        probe_pairs_list(ctx, B, env, rng, pairs, opts, dirn)
+        pairs_list_2site(ctx, B, env, rng, pairs, opts, dirn, Nx, Ny)
     # ---- measure_nn for a sequence of bonds in reversed / shuffled order (mixed orientations), per-site operator dicts
     for a, b in pairs:
         order, how = bond_order(rng, [bd if rng.random() < 0.6 else bd[::-1] for bd in bonds])
